@@ -9,6 +9,14 @@ Engine E1: exhaustive enumeration of
   (3b) nest : an expression whose value, while being computed, runs another filtered expression (plain / buffered
               def, capture(def), a context callable rendering a second Template) x every ordered (outer, inner) pair of
               {decode.utf8, decode.latin1, decode.ascii, h, x, f1}; two filters of that set in one list on one value,
+  (3c) vals : every filter where it receives the value itself x a sequence of values that are equal / hash alike but
+              read differently (True/1/1.0, False/0/0.0, Decimal, objects), a value whose text changes, an unhashable
+              value - one after the other in one process, both orders (a failure is minimised to its prelude),
+  (3d) shared: histories on one TemplateLookup / one list object given to several Template() calls: every ordered pair
+              of templates (page filter absent / list / list with n); each must render as it does on its own and the
+              caller's default_filters / buffer_filters / imports lists must be unchanged,
+  (3e) fpart: spellings of the filter list itself (comments, trailing comma, several lines, blanks in attributes) and a
+              page filter named by a context callable: the documented composition or a loud refusal, nothing else,
   (4) spell : every spelling of the expression text from a bounded grammar (specials only inside brackets or
               string literals) x spellings of the filter part,
 each printed from a small IR (mc/c02_ref.py), compiled and rendered by the real Template, and compared with the
@@ -53,13 +61,15 @@ RULE = (
     "inside a bracket or string literal."
 )
 ASSUMPTIONS = [
-    "DONT_CARE: x, u, trim, entity applied to a non-string (documentation speaks of strings); x applied to text with quote characters (entity spelling not fixed); a non-string reaching the output buffer; h applied to the result of x/entity/decode of a Markup value (Markup-ness of that result not documented)",
+    "x, u, trim, entity applied to a non-string (the documentation speaks of strings): the filter may refuse the value (any exception) or work on str(value) (trim also: the value's own strip()); every combination of these readings is computed and the template must match one of them. DONT_CARE: x applied to text with quote characters (entity spelling not fixed); a non-string reaching the output buffer; h applied to the result of x/entity/decode of a Markup value (Markup-ness of that result not documented)",
     "names in default_filters, buffer_filters and <%page expression_filter> are supplied at module level (imports= or <%! %>), as the documentation requires; expression-level and filter= names come from the context, <%! %>, imports= or a <% %> local",
     "a top-level | outside brackets is by documentation the filter separator: the spelling grammar places | only inside brackets or string literals; newlines occur only inside brackets or triple-quoted literals; filter lists are written on one line except inside a call's parentheses",
     "filter arguments are literals (the source generator that re-emits filter arguments is property C19's subject)",
     "what <%call expr=...> does with the callee's return value is not fixed by the statement: both 'written as it is' and 'treated as ${expr} with an empty local filter list' are accepted",
     "a user filter or decode.<enc> that raises must make render() raise (any exception class); nothing else is demanded there",
     "nested pipelines: the reference composition is unchanged - each expression uses its own filter list whatever else is evaluated meanwhile; capture(f) is the documented built-in (fresh buffer, returns the content); concurrent renders in other threads are not enumerated here",
+    "filter-list spellings the documentation never shows (comment, trailing comma, several lines, blanks inside filter= attributes) and a <%page> filter named by a context callable: accepted with the documented meaning or refused loudly (SyntaxException/CompileException, resp. NameError) - anything else is a violation",
+    "order dependence: a failure seen in a long-lived worker is re-run in a fresh interpreter alone and after each of the 24 preceding cases (core.find_prelude); the shared-list histories carry their own history",
     "tagging user filters convert their argument with str() so that Markup.__add__ escaping never enters the comparison",
     "CPython eval/exec, str, markupsafe, html.entities, urllib.parse are trusted",
 ]
@@ -71,6 +81,9 @@ BOUNDS = {
         "buffered def without filter= x 3 calling filters x 3 buffer_filters x 6 D x 6 P x 5 values",
         "nest": "36 ordered (outer, inner) filter pairs of {decode.utf8, decode.latin1, decode.ascii, h, x, f1} x inner pipeline run in {def, buffered def, capture(def), second template with local filter, second template with default_filters} x outer filter given {locally after n, as default_filters}; "
         "36 pairs in one list x {n + list, default_filters=[] + list, default_filters=[first] + [second]} x 4 values (utf-8 / latin-1 / ascii bytes, str)",
+        "vals": "9 filters x {n+f, n+f+f1, default_filters=[f], default_filters=[f]+f2} x {body, def} x 14 values in sequence (True, 1, 1.0, False, 0, 0.0, Decimal 1 / 1.0, two equal objects, one object with two texts, a list, a str), forward and reversed",
+        "fpart": "15 spellings of the filter part x 2 default_filters x {body, def} x 2 values; 9 attribute spellings x {def, buffered def, 2 blocks, text, page}; 4 page lists naming context callables x 5 positions x 3 local lists",
+        "shared": "15 templates (3 bodies x 5 page settings): all 225 ordered pairs x 2 default_filters lists x {one list object given to Template() twice, one TemplateLookup}; every template re-rendered after each compile; 3 input lists compared afterwards",
         "bind": "lists of <=2 with a user filter x binding {<%! %>, imports=, <% %> local} x D/P/B names from {imports=, <%! %>} x 5 positions x 2 (D,P); decoy context names x lists <=2; raising stages",
         "spell": "string atoms (content 1 of 12 symbols x 4 filter parts, content 2 x 2; 4 quote styles, r/f prefixes); 26 core atoms x 40 wrappers x 2; 2 atoms x 40^2 wrappers x 2; "
         "90 spacings of the filter part x 22 expressions; 15 filter-argument spellings x 5; 8 x 6 junctions x 4 x 2; inner spaces; 8 f-string forms",
@@ -81,6 +94,9 @@ BOUNDS = {
         "tagf": "filter= lists of <=3 x 7 constructs (quick's + def called with |n) x buffer_filters 3/1 x 6 (D,P) settings x 2 values; buffered def without filter= as quick",
         "bind": "as quick",
         "nest": "as quick",
+        "vals": "as quick",
+        "fpart": "as quick",
+        "shared": "as quick with 4 default_filters lists",
         "spell": "quick with 4 filter parts for atoms and depth 1, depth 2 over 4 atoms x 40^2 x 2; + atoms with content 3 x 2; 26 core atoms x 40^2 wrappers; 2 atoms x 40^3 wrappers",
     },
 }
